@@ -12,7 +12,7 @@ REL = "matid/clustering/sbc.py"
 def run():
     rep = Report("C01")
     rep.trusted_base = ["z3 (quantified arrays/EPR-style formulas)", "pyvc symbolic executor"]
-    sections_parallel(rep, [("localize", _localize), ("clean", _clean), ("merge", _merge), ("cluster.init", _init), ("main", _main), ("mergeloop", _mergeloop)])
+    sections_parallel(rep, [("localize", _localize), ("clean", _clean), ("merge", _merge), ("cluster.init", _init), ("main", _main), ("mergeloop", _mergeloop), ("getdistances", _getdistances)])
     return rep
 
 
@@ -87,6 +87,12 @@ def _mergeloop(rep):
     run_fv(rep, "mergeloop.", sbc_ctx(), "SBC._merge_clusters", ML.mk, ML.post, loops=ML.LOOPS, contracts=ML.CONTRACTS, max_paths=5000)
 
 
+
+def _getdistances(rep):
+    """the distance tables handed to the callees are those of the periodic search of the structure (contract of get_distances, shared with C10)"""
+    from props import C10
+    C10._getdistances(rep)
+
 def replay_key(ob):
     return ob.id.split(".")[0]
 
@@ -104,6 +110,8 @@ def replay(ob):
         fails = N.clean()
     if not fails:
         fails = N.end_to_end()
+    if not fails and sec in ("main", "audit", "mergeloop", "merge"):
+        fails = N.random_gases()
     return {"reproduced": bool(fails), "failing_inputs": fails[:3], "section": sec}
 
 
